@@ -294,13 +294,138 @@ def rule_reselection_guard(eng, rep, rule="C17-4b.incumbent-is-re-selected-whene
         rep.ok(rule, eng.where(m), "every normal exit of add_new_sample lies behind the re-selection or behind `all values are NaN`")
 
 
+class _NoForm(Exception):
+    pass
+
+
+def rule_running_mean(eng, rep, rule="C17-8.re-sampled-residual-is-the-arithmetic-mean-of-its-samples"):
+    """Where a residual row is updated from itself and a new sample (Model.add_new_sample), the stored value must be the arithmetic mean again: with n samples so far,
+    new row == (n*old + sample)/(n+1) *as a rational function* of (old, sample, n).  The statement (temporaries and one-expression helpers looked through) is translated
+    to a rational expression -- each read of the sample count becomes n or n+1 according to whether the count's own increment lies before or after the read -- and
+    normalised (sympy.cancel; a normal form, no search).  Any algebraically equal way of writing the update passes; a weight of the wrong phase (n+1 over n+2, 1/n) does not."""
+    import sympy as sp
+    from .common import inline_simple_calls
+    model = eng.prog.cls("Model")
+    nsites = 0
+    for m in sorted(model.methods.values(), key=lambda f: f.qualname):
+        if m.qualname.endswith(".__init__"):
+            continue
+        selfn = m.posparams[0] if m.posparams else None
+        cfg = eng.cfg(m)
+        for node in list(eng.prog.own_nodes(m)):
+            if not (isinstance(node, ast.Assign) and len(node.targets) == 1 and _written_field(node.targets[0], selfn) == "fval_v" and isinstance(node.targets[0], ast.Subscript)):
+                continue
+            tgt = node.targets[0]
+            tkey = ekey(tgt)
+            if tkey not in [ekey(x) for x in ast.walk(node.value)]:
+                # maybe through a temporary: old = self.fval_v[k, :]; ... handled below by the translator; cheap pre-filter on the field name
+                if "fval_v" not in mentions(node.value) and not any(isinstance(x, ast.Name) and x.id not in m.all_params for x in ast.walk(node.value)):
+                    continue
+            sl = tgt.slice
+            idx = sl.elts[0] if isinstance(sl, ast.Tuple) and sl.elts else sl
+            ikey = ekey(idx)
+            incs = [cfg.cfg_node(x) for x in eng.prog.own_nodes(m) if isinstance(x, ast.AugAssign) and _written_field(x.target, selfn) == "nsamples"]
+            n, OLD = sp.Symbol("n", positive=True), sp.Symbol("old", real=True)
+            others = {}
+            seen_old = [False]
+
+            def phase(stmt):
+                here = cfg.cfg_node(stmt)
+                if not incs:
+                    return n
+                after = [i for i in incs if cfg.path_avoiding(i, here, []) is not None and i != here]
+                if not after:
+                    return n
+                if all(cfg.dominates(i, here) for i in incs) and all(cfg.path_avoiding(here, i, []) is None for i in incs):
+                    return n + 1
+                raise _NoForm("the sample count is incremented on some paths before `%s` and on others after" % short(stmt, 40))
+
+            def tr(e, stmt, depth=6):
+                if isinstance(e, ast.Constant) and isinstance(e.value, (int, float)) and not isinstance(e.value, bool):
+                    return sp.nsimplify(e.value)
+                if isinstance(e, ast.BinOp) and isinstance(e.op, (ast.Add, ast.Sub, ast.Mult, ast.Div)):
+                    l, r = tr(e.left, stmt, depth), tr(e.right, stmt, depth)
+                    return l + r if isinstance(e.op, ast.Add) else l - r if isinstance(e.op, ast.Sub) else l * r if isinstance(e.op, ast.Mult) else l / r
+                if isinstance(e, ast.UnaryOp) and isinstance(e.op, (ast.USub, ast.UAdd)):
+                    v = tr(e.operand, stmt, depth)
+                    return -v if isinstance(e.op, ast.USub) else v
+                if isinstance(e, ast.Call) and ekey(e.func) in ("float", "np.float64", "numpy.float64", "np.asarray", "np.array") and len(e.args) == 1 and not e.keywords:
+                    return tr(e.args[0], stmt, depth)
+                if isinstance(e, ast.Call) and isinstance(e.func, ast.Attribute) and e.func.attr == "copy" and not e.args:
+                    return tr(e.func.value, stmt, depth)
+                if isinstance(e, ast.Call):
+                    e2 = inline_simple_calls(eng, e, depth=1)
+                    if not isinstance(e2, ast.Call) or ekey(e2) != ekey(e):
+                        return tr(e2, stmt, depth - 1)
+                    raise _NoForm("call `%s` has no rational form" % short(e, 40))
+                if isinstance(e, (ast.Subscript, ast.Attribute)):
+                    k = ekey(e)
+                    if k == tkey:
+                        seen_old[0] = True
+                        return OLD
+                    root = e
+                    while isinstance(root, ast.Subscript):
+                        root = root.value
+                    if isinstance(root, ast.Attribute) and isinstance(root.value, ast.Name) and root.value.id == selfn and root.attr == "nsamples":
+                        i2 = e.slice if isinstance(e, ast.Subscript) else None
+                        if i2 is not None and ekey(i2) == ikey:
+                            return phase(stmt)
+                        raise _NoForm("reads the sample count of another slot: `%s`" % short(e, 40))
+                    return others.setdefault(k, sp.Symbol("v%d" % len(others), real=True))
+                if isinstance(e, ast.Name):
+                    if e.id in m.all_params:
+                        defs = cfg.defs_reaching(stmt, e.id)
+                        if all(cfg.kind(d) == "entry" for d in defs):
+                            return others.setdefault(e.id, sp.Symbol("p_" + e.id, real=True))
+                    defs = cfg.defs_reaching(stmt, e.id)
+                    if len(defs) == 1 and depth > 0:
+                        st = cfg.ast_of(defs[0])
+                        if isinstance(st, ast.Assign) and len(st.targets) == 1 and isinstance(st.targets[0], ast.Name):
+                            return tr(st.value, st, depth - 1)
+                    raise _NoForm("`%s` has no single defining expression here" % e.id)
+                raise _NoForm("`%s` has no rational form" % short(e, 40))
+
+            site = eng.where(m, node)
+            try:
+                V = tr(node.value, node)
+            except _NoForm as ex:
+                if tkey in [ekey(x) for x in ast.walk(node.value)]:
+                    nsites += 1
+                    rep.unknown(rule, site, "`%s`: %s" % (short(node, 60), ex))
+                continue
+            if not seen_old[0]:
+                continue          # a plain store (replace / append / relocation), not an update from the row itself
+            nsites += 1
+            news = [v for k, v in others.items() if V.has(v)]
+            pnews = [k for k, v in others.items() if V.has(v)]
+            if len(news) != 1 or pnews[0] not in m.all_params:
+                if not news:
+                    rep.bad(rule, site, "%s|update-ignores-the-new-sample" % m.fid, "`%s`: the updated residual does not depend on any new sample" % short(node, 60))
+                else:
+                    rep.unknown(rule, site, "`%s`: more than one value besides the old row and the sample count enters the update (%s)" % (short(node, 60), ", ".join(sorted(pnews))))
+                continue
+            NEW = news[0]
+            want = (n * OLD + NEW) / (n + 1)
+            diff = sp.cancel(sp.together(V - want))
+            if diff == 0:
+                rep.ok(rule, site, "`%s` == (n*old + %s)/(n+1) as a rational function (n = samples before this one; the count is incremented %s)"
+                       % (short(node, 50), pnews[0], "afterwards" if not V.has(n + 2) else "first"))
+            else:
+                got = sp.collect(sp.expand(sp.cancel(sp.together(V))), [OLD, NEW])
+                rep.bad(rule, site, "%s|not-the-arithmetic-mean" % m.fid,
+                        "`%s`: with n samples averaged so far the new row is %s, but the arithmetic mean of the n+1 samples is (n*old + new)/(n+1)"
+                        % (short(node, 60), str(got).replace(str(NEW), "new")))
+    rep.require_count(rule, "residual rows updated from themselves and a new sample", nsites, 1)
+
+
 def run(eng, rep):
     rep.explain("C17 (structural clauses): the per-point record is derived from change_point (fields written at index k); every Model method that relocates, appends, "
                 "replaces or re-samples records must touch all record arrays with one index expression (T4 coherence); sample counts are set to 1 exactly on "
                 "replace/append and incremented by 1 exactly where a residual is averaged; every stored objective is sumsq(residual)[+h] (shared with C03-5); "
                 "complete decision tables (ordering, ties, NaN, None) for incumbent moves and the final selection (T6); every store to kopt is bounded by npt().")
     rep.explain("Also decided: the re-selection after a re-sample is guarded only by 'not all NaN' and lies on every path to a normal exit (C17-4b); the saved record never aliases live arrays (C17-6); extra samples go to the slot of their point (C17-7); append helpers are recognised structurally.")
-    rep.not_decided += ["'the stored residual is the arithmetic mean of its samples': the running-mean update t*old + (1-t)*new, t = n/(n+1), is a rational identity, not an affine one; declined as a frozen-formula match"]
+    rep.explain("The running-mean update of a re-sampled residual equals (n*old + new)/(n+1) as a rational function, with each read of the sample count placed before or after its increment (C17-8, sympy.cancel as normaliser).")
+    rep.not_decided += ["rounding error of the running mean (the identity is decided over the rationals)"]
     rule_parallel_arrays(eng, rep)
     A = anchors(eng)
     rule_objective_construction(eng, rep, A)
@@ -308,6 +433,7 @@ def run(eng, rep):
     rule_selection(eng, rep, "C17-4.incumbent-and-final-selection-tables", {"ORDER", "NAN_CAND", "NAN_HOLDER", "NONE_HOLDER"}, "C17")
     rule_kopt_valid(eng, rep)
     rule_reselection_guard(eng, rep)
+    rule_running_mean(eng, rep)
     from .records import rule_snapshots_are_copies
     from .c03 import rule_extra_samples_same_slot
     rule_extra_samples_same_slot(eng, rep, rule="C17-7.extra-samples-go-to-the-slot-of-their-point")
